@@ -1,6 +1,6 @@
 SPECIFICATION TSpec
 CONSTANTS
-  Conns = {1, 2, 3, 4, 5, 6, 7, 8, 9, 10, 11, 12, 13, 14, 15, 16}
+  Conns = {1, 2, 3, 4, 5, 6, 7, 8, 9, 10, 11, 12}
   Reqs = {1, 2, 3, 4, 5, 6, 7, 8, 9, 10}
   Judge = {"C18"}
   Inf = 1000000
